@@ -8,6 +8,7 @@ import (
 	"strings"
 	"testing"
 
+	"github.com/google/go-tdx-guest/abi"
 	"github.com/google/go-tdx-guest/pcs"
 	"github.com/google/go-tdx-guest/verify"
 	"pgregory.net/rapid"
@@ -293,6 +294,139 @@ func TestC04(t *testing.T) {
 		gen.Sample("abstraction", fmt.Sprintf("%+v", c))
 		runAbs(t, bases, c)
 	})
+	// (a'') two defects of a signed TCB Info at once. The first listed level is UpToDate but carries a number the level's
+	// field cannot hold (a component SVN of 256 and more, a PCESVN of 65536 and more, a negative one): whatever the
+	// verifier makes of such a level, the platform does not meet it. The level the platform does meet is listed second and
+	// is OutOfDate / Revoked. In front of, or behind, the bad number another member of the level has the wrong JSON type
+	// (advisoryIDs as a string, a number, an object). Refusing the document and skipping the level both reject; nothing
+	// accepts.
+	gen.Prop(t, "type-error-behind-another", gen.N(600, 40000), func(t *rapid.T) {
+		s := gen.NewStream(rapid.Uint64().Draw(t, "content"), "c04te")
+		w := gen.NewWorld(gen.NewPKI(gen.PKISpec{Seed: gen.PKISeeds[s.Intn(4)]}), s)
+		for i := range w.Sgx.Comp {
+			w.Sgx.Comp[i] = byte(1 + s.Intn(200))
+		}
+		w.Sgx.PceSvn = uint16(1 + s.Intn(60000))
+		w.HonestCollateral()
+		met := w.TcbInfo.Levels[0]
+		met.Status = rapid.SampledFrom([]string{"OutOfDate", "Revoked", "OutOfDateConfigurationNeeded", "ConfigurationNeeded", "SWHardeningNeeded"}).Draw(t, "statusOfTheLevelThatIsMet")
+		first := w.TcbInfo.Levels[0] // UpToDate, equal to the platform: the bad number is put in by text below
+		w.TcbInfo.Levels = []gen.PlatformLevel{first, met}
+		w.Build()
+		doc := string(w.TcbInfo.Render())
+		li := strings.Index(doc, `"tcbLevels":[{"tcb":{"sgxtcbcomponents"`)
+		if li < 0 {
+			gen.HarnessError(t, "unexpected rendering of the TCB Info")
+		}
+		head, levels := doc[:li], doc[li:]
+		which := rapid.SampledFrom([]string{"component", "component", "pcesvn", "tdx-component"}).Draw(t, "field")
+		bad := rapid.SampledFrom([]string{"256", "263", "511", "65536", "1000000", "-1", "4294967296", "1e3"}).Draw(t, "number")
+		switch which {
+		case "component":
+			k := rapid.IntRange(0, 15).Draw(t, "k")
+			idx := nthIndex(levels, `{"svn":`, k)
+			end := idx + strings.Index(levels[idx:], "}")
+			levels = levels[:idx] + `{"svn":` + bad + levels[end:]
+		case "tdx-component":
+			at := strings.Index(levels, `"tdxtcbcomponents":[`)
+			k := rapid.IntRange(2, 15).Draw(t, "k")
+			idx := at + nthIndex(levels[at:], `{"svn":`, k)
+			end := idx + strings.Index(levels[idx:], "}")
+			levels = levels[:idx] + `{"svn":` + bad + levels[end:]
+		default:
+			if bad == "256" || bad == "263" || bad == "511" || bad == "1e3" {
+				bad = "65536"
+			}
+			idx := strings.Index(levels, `"pcesvn":`)
+			end := idx + strings.IndexAny(levels[idx:], ",}")
+			levels = levels[:idx] + `"pcesvn":` + bad + levels[end:]
+		}
+		adv := rapid.SampledFrom([]string{"", `"advisoryIDs":"INTEL-SA-00615",`, `"advisoryIDs":7,`, `"advisoryIDs":{"id":"INTEL-SA-00615"},`, `"advisoryIDs":[1,2],`, `"tcbDate":20230816,`, `"advisoryIDs":true,`}).Draw(t, "otherTypeError")
+		if adv != "" {
+			if rapid.Bool().Draw(t, "inFront") {
+				levels = strings.Replace(levels, `"tcbLevels":[{`, `"tcbLevels":[{`+adv, 1)
+			} else {
+				// behind the level's tcb member
+				i := strings.Index(levels, `},"tcbDate"`)
+				levels = levels[:i+2] + adv + levels[i+2:]
+			}
+		}
+		signed := head + levels
+		u := gen.TcbInfoURL(w.FmspcHex())
+		w.Resp[u] = gen.Response{Header: w.Resp[u].Header, Body: gen.SignedBody("tcbInfo", []byte(signed), w.PKI.TcbSig.Key)}
+		desc := fmt.Sprintf("first level UpToDate with %s = %s, other type error %q, the level the platform meets is %s", which, bad, adv, met.Status)
+		for _, l := range []gen.Level{gen.LvlColl, gen.LvlCRL} {
+			o := w.Options(l, w.NewGetter(), nil)
+			gen.Eval()
+			v := gen.Call(func() error { return verify.RawTdxQuote(w.Raw, o) })
+			if v.Accepted() {
+				gen.Fail(t, gen.Violation{Key: "accepts-bad-tcb:level-with-a-number-its-field-cannot-hold", Oracle: "accepted only if identity fields match and the selected platform (and module) level is UpToDate", Detail: desc + ": accepted at level " + l.String(), Replay: w.CaseFile(l, nil, nil, nil, "reject")})
+				return
+			}
+			// the level report on the same options: whatever it reports, not the first level as met
+			m, _ := abi.QuoteToProto(w.Raw)
+			var tl pcs.TcbLevel
+			vs := gen.Call(func() error {
+				var err error
+				tl, _, err = verify.SupportedTcbLevelsFromCollateral(m, o)
+				return err
+			})
+			if vs.Accepted() && string(tl.TcbStatus) == "UpToDate" {
+				gen.Fail(t, gen.Violation{Key: "supported-levels-not-the-selected-level", Oracle: "the reported TCB level is the level the selection algorithm picks", Detail: desc + fmt.Sprintf(": the level report names an UpToDate level (%+v)", tl.Tcb), Replay: w.CaseFile(l, nil, nil, nil, "reject")})
+				return
+			}
+		}
+		gen.NonTrivial("type-error", which, bad, adv)
+		gen.Class("type-error-behind-another:other=" + map[bool]string{true: "yes", false: "none"}[adv != ""])
+	})
+	// The PCK certificate's TCB list with an element whose object identifier is NOT under the TCB arc (1.2.840.113741.
+	// 1.13.1.<x>.<n>, x != 2) in place of the CPUSVN or next to the real elements: it is no component, whatever its last
+	// arc says. The first TCB Info level (UpToDate) demands what that element claims, the level the real components meet
+	// is OutOfDate.
+	gen.Prop(t, "foreign-arc-element-in-the-tcb-list", gen.N(400, 30000), func(t *rapid.T) {
+		s := gen.NewStream(rapid.Uint64().Draw(t, "content"), "c04arc")
+		w := gen.NewWorld(gen.NewPKI(gen.PKISpec{Seed: gen.PKISeeds[s.Intn(4)]}), s)
+		for i := range w.Sgx.Comp {
+			w.Sgx.Comp[i] = byte(1 + s.Intn(100))
+		}
+		w.Sgx.PceSvn = uint16(1 + s.Intn(30000))
+		top := gen.SgxTree(&w.Sgx)
+		tcb := top.Kids[1].Kids[1]
+		n := rapid.IntRange(1, 17).Draw(t, "claimedMember")
+		x := rapid.SampledFrom([]int{1, 3, 4, 5, 12, 200}).Draw(t, "otherArc")
+		claim := int64(200)
+		if n == 17 {
+			claim = 40000
+		}
+		foreign := gen.Seq(gen.OID(1, 2, 840, 113741, 1, 13, 1, x, n), gen.IntMin(claim))
+		// in place of the CPUSVN (last element), so that the list keeps its 18 elements; sometimes in front
+		if rapid.Bool().Draw(t, "inFront") {
+			tcb.Kids = append([]*gen.Node{foreign}, tcb.Kids[:17]...)
+		} else {
+			tcb.Kids[17] = foreign
+		}
+		w.SgxDER = top.Encode()
+		w.HonestCollateral()
+		met := w.TcbInfo.Levels[0]
+		met.Status = "OutOfDate"
+		first := w.TcbInfo.Levels[0]
+		if n <= 16 {
+			first.Sgx[n-1] = byte(claim)
+		} else {
+			first.PceSvn = uint16(claim)
+		}
+		w.TcbInfo.Levels = []gen.PlatformLevel{first, met}
+		w.Build()
+		o := w.Options(gen.LvlColl, w.NewGetter(), nil)
+		gen.Eval()
+		v := gen.Call(func() error { return verify.RawTdxQuote(w.Raw, o) })
+		if v.Accepted() {
+			gen.Fail(t, gen.Violation{Key: "accepts-bad-tcb:foreign-arc-element-taken-for-a-component", Oracle: "accepted only if identity fields match and the selected platform (and module) level is UpToDate", Detail: fmt.Sprintf("TCB list with an element 1.2.840.113741.1.13.1.%d.%d = %d; the first level (UpToDate) demands that value for member %d, the real value is lower and the level it meets is OutOfDate: accepted", x, n, claim, n), Replay: w.CaseFile(gen.LvlColl, nil, nil, nil, "reject")})
+			return
+		}
+		gen.NonTrivial("foreign-arc", x, n)
+		gen.Class("foreign-arc-element")
+	})
 	// (a') the SIGNED TCB Info lacks something the evaluation needs while an unsigned, differently spelled sibling member
 	// supplies a complete, favourable document: what the signed member does not say is not said
 	gen.Prop(t, "signed-tcb-info-omits-what-an-unsigned-twin-supplies", gen.N(500, 40000), func(t *rapid.T) {
@@ -540,4 +674,19 @@ func shapeLevelSafe(w *gen.World, shape, status string) gen.PlatformLevel {
 	l := shapeLevel(w, shape, status)
 	// an overflowed "+1" wraps to 0 (which passes); that is fine for a random generator — the model decides.
 	return l
+}
+
+// nthIndex returns the index of the n-th (0-based) occurrence of sub in s, or -1.
+func nthIndex(s, sub string, n int) int {
+	off := 0
+	for i := 0; ; i++ {
+		j := strings.Index(s[off:], sub)
+		if j < 0 {
+			return -1
+		}
+		if i == n {
+			return off + j
+		}
+		off += j + len(sub)
+	}
 }
